@@ -54,7 +54,7 @@ Settings == {
 Deprecated == {
   S("port", "port", "BAZEL_REMOTE_PORT", <<"port">>, "int", "8282", "8383"),
   S("grpc_port", "grpc_port", "BAZEL_REMOTE_GRPC_PORT", <<"grpc_port">>, "int", "9292", "9393"),
-  S("host", "host", "BAZEL_REMOTE_HOST", <<"host">>, "string", "127.0.0.1", "localhost")
+  S("host", "host", "BAZEL_REMOTE_HOST", <<"host">>, "string", "127.0.0.1", "::1")   \* a name and an IPv6 literal: the address is host:port resp. [host]:port
 }
 
 \* dependent settings that only mean something next to the setting that switches their group on
